@@ -299,20 +299,30 @@ class ExecutionContext:
                     ref = instruction.Reference
                     var = localScope[instruction.Value.Reference]
 
-                    assert instruction.Type.IsScalar()
+                    assert instruction.Type.IsPrimitive()
 
-                    if isinstance(instruction.Type, LinearIR.IntegerType):
-                        if not instruction.Type.Unsigned:
-                            var = math.floor(var)
-                        else:
-                            var = abs(math.floor(var))
+                    if instruction.Type.IsScalar():
+                        elementType = instruction.Type
                     else:
-                        # Must be float
-                        assert isinstance(instruction.Type, LinearIR.FloatType)
+                        elementType = instruction.Type.ElementType
 
-                        var = float(var)
+                    def Convert(value):
+                        # Vectors and matrices are converted per component
+                        if isinstance(value, list):
+                            return [Convert(v) for v in value]
 
-                    localScope[ref] = var
+                        if isinstance(elementType, LinearIR.IntegerType):
+                            if not elementType.Unsigned:
+                                return math.floor(value)
+                            else:
+                                return abs(math.floor(value))
+                        else:
+                            # Must be float
+                            assert isinstance(elementType, LinearIR.FloatType)
+
+                            return float(value)
+
+                    localScope[ref] = Convert(var)
                 case LinearIR.OpCode.CONSTRUCT_PRIMITIVE:
                     ref = instruction.Reference
                     if instruction.Type.Kind == LinearIR.TypeKind.Vector:
